@@ -144,7 +144,7 @@ def find_afifo(module):
             for _, sub in m._submodules:
                 todo.append(sub)
         # ClockDomainsRenamer wraps lazily: transformed modules are still Module instances
-    raise ValueError("no AsyncFIFO found")
+    return None
 
 
 class AFifoInst:
@@ -163,15 +163,17 @@ class AFifoInst:
         self.cd_w, self.cd_r = cd_w, cd_r
         self.sink = sink if sink is not None else module.sink
         self.source = source if source is not None else module.source
+        # The crossing is expected to be built around one Migen AsyncFIFO, but nothing is assumed about what the
+        # code under test really returns (e.g. uart._get_uart_fifo decides the class itself): without an AsyncFIFO
+        # there are simply no synchroniser flops to resolve, and every domain the module uses is driven —
+        # the sink side's clock on write edges, the source side's on read edges, "sys" with whichever of the two
+        # it is named after.
         af = find_afifo(module)
-        mrs = own_multiregs(af)
-        assert len(mrs) == 2
+        mrs = own_multiregs(af) if af is not None else []
         # before elaboration the domains still have Migen's names
-        self.sp_w = [sp for sp in mrs if sp.odomain == "write"][0]   # consume.q  -> write domain
-        self.sp_r = [sp for sp in mrs if sp.odomain == "read"][0]    # produce.q  -> read domain
-        self.netlist = CdcNetlist(module, clocks=(cd_w, cd_r))
-        # (which domain really clocks each synchroniser after renaming is whatever the code under test does;
-        #  the harness clocks `cd_w` when the sink side has an edge and `cd_r` when the source side has one)
+        self.sp_w = ([sp for sp in mrs if sp.odomain == "write"] or [None])[0]   # consume.q  -> write domain
+        self.sp_r = ([sp for sp in mrs if sp.odomain == "read"] or [None])[0]    # produce.q  -> read domain
+        self.netlist = CdcNetlist(module, clocks=tuple(dict.fromkeys((cd_w, cd_r, "sys"))))
         self.isigs = ep_fields(self.sink)
         self.osigs = ep_fields(self.source)
         self.tokw = sum(len(s) for s in self.isigs)
@@ -179,7 +181,7 @@ class AFifoInst:
         self.tokens = list(tokens)
         self.alternate = alternate
         self.eager = eager          # mode A with producer always offering and consumer always accepting
-        self.mask_order = [id(self.sp_w), id(self.sp_r)]
+        self.mask_order = [id(sp) for sp in (self.sp_w, self.sp_r) if sp is not None]
         self.alphabet = None
         self.ratio = ratio
         self._phase = None
@@ -215,12 +217,21 @@ class AFifoInst:
 
     def make_letter(self, base, masks):
         tw, tr, v, d, r = base
-        return (tw, tr, masks.get(id(self.sp_w), 0), masks.get(id(self.sp_r), 0), v, d, r)
+        return (tw, tr, masks.get(id(self.sp_w), 0) if self.sp_w is not None else 0,
+                masks.get(id(self.sp_r), 0) if self.sp_r is not None else 0, v, d, r)
 
     def clocks(self, letter):
         tw, tr, mw, mr = letter[:4]
         cds = tuple(cd for cd, t in ((self.cd_w, tw), (self.cd_r, tr)) if t)
-        return Tick((cds, {id(self.sp_w): mw, id(self.sp_r): mr}))
+        return Tick((cds, self._masks(mw, mr)))
+
+    def _masks(self, mw, mr):
+        m = {}
+        if self.sp_w is not None:
+            m[id(self.sp_w)] = mw
+        if self.sp_r is not None:
+            m[id(self.sp_r)] = mr
+        return m
 
     def apply(self, letter):
         n = self.netlist
@@ -437,8 +448,9 @@ class BusSyncInst:
        letter : (ti, to, mPing, mPong, mBuf, i)      outputs: [o]"""
     FMT = "ti, to, ping flop catches new, pong flop catches new, obuffer first-flop mask, i"
 
-    def __init__(self, name, width, timeout, values=None, ratio_max=None):
+    def __init__(self, name, width, timeout, values=None, ratio_max=None, pattern=None):
         from litex.gen.genlib.cdc import BusSynchronizer
+        self.pattern = pattern      # None: drawn per run; (period_i, period_o, phase_o): fixed periodic clocks
         self.name = name
         self.width, self.timeout = width, timeout
         self.module = m = BusSynchronizer(width, "i", "o", timeout=timeout)
@@ -492,19 +504,72 @@ class BusSyncInst:
         # an instant in which some synchroniser source changed, or the output is about to be reloaded
         return bool(letter[0] and letter[1])
 
-    # mode B: clocks with bounded drift ratio (the property's R = 1..3), slowly changing input words
+    # mode B: clocks with bounded drift ratio (the property's R = 1..3): random interleavings or free-running
+    # periodic clocks with a fixed phase offset (also output clock faster than input clock); the input word
+    # alternates between short holds (changes in the middle of hand-shakes) and holds long enough for the
+    # eventual-convergence rule to apply
     def gen(self, rng, t):
         if t == 0 or self._pat is None:
-            self._pat = BoundedRatioClocks(rng, self.ratio_max or 3)
+            R = self.ratio_max or 3
+            if self.pattern is not None:
+                self._pat = PeriodicClocks(*self.pattern)
+            elif rng.random() < 0.5:
+                self._pat = PeriodicClocks(*rng.choice(PeriodicClocks.admissible(R)))
+            else:
+                self._pat = BoundedRatioClocks(rng, R)
             self._cur = rng.randint(0, (1 << self.width) - 1)
+            self._hold = 0
         ti, to = self._pat.next(rng)
-        if ti and rng.random() < 0.3:
-            self._cur = rng.randint(0, (1 << self.width) - 1)
+        if ti:
+            if self._hold <= 0:
+                self._cur = rng.randint(0, (1 << self.width) - 1)
+                self._hold = rng.randint(1, 4) if rng.random() < 0.5 else rng.randint(40, 120)
+            self._hold -= 1
         full = (1 << self.width) - 1
         return (ti, to, rng.randint(0, 1), rng.randint(0, 1), rng.choice((0, full, rng.randint(0, full))), self._cur)
 
     def monitor(self):
-        return CoherenceMonitor()
+        return BusSyncMonitor()
+
+
+class PeriodicClocks:
+    """Two free-running clocks: i-edges at k*pi, o-edges at ph + k*po (integer time); an instant is every time
+    point with at least one edge."""
+    PATTERNS = [(10, 10, 0), (10, 10, 3), (30, 10, 1), (30, 10, 0), (14, 10, 1), (14, 10, 2), (14, 10, 3),
+                (14, 10, 4), (20, 10, 5), (20, 10, 0), (10, 14, 3), (10, 20, 1), (10, 30, 7), (10, 30, 0),
+                (12, 10, 1), (10, 12, 5), (25, 10, 2)]
+
+    def __init__(self, pi, po, ph):
+        self.pi, self.po = pi, po
+        self.ni, self.no = 0, ph
+
+    def next(self, rng=None):
+        now = min(self.ni, self.no)
+        ti = 1 if self.ni == now else 0
+        to = 1 if self.no == now else 0
+        if ti:
+            self.ni += self.pi
+        if to:
+            self.no += self.po
+        return ti, to
+
+    @classmethod
+    def bursts(cls, pat):
+        """(longest run of i-only instants, longest run of o-only instants) of a pattern."""
+        c = cls(*pat)
+        bi = bo = ri = ro = 0
+        for _ in range(4000):
+            ti, to = c.next()
+            ri = ri + 1 if (ti and not to) else (0 if to else ri)
+            ro = ro + 1 if (to and not ti) else (0 if ti else ro)
+            bi, bo = max(bi, ri), max(bo, ro)
+        return bi, bo
+
+    @classmethod
+    def admissible(cls, R):
+        """Patterns inside the drift bound: at most R consecutive i-only instants (hypothesis of
+        bussync_no_spurious_timeout) and an output clock at most 3 times faster."""
+        return [p for p in cls.PATTERNS if cls.bursts(p)[0] <= R and cls.bursts(p)[1] <= 3]
 
 
 class BoundedRatioClocks:
@@ -549,6 +614,43 @@ class CoherenceMonitor:
         if ti:
             self.past.add(v)
         return msg
+
+
+class ConvergenceMonitor:
+    """Property oracle for "after the input has been stable for long enough the output reflects it": once the
+    word on `i` has been held through N = 12 consecutive blocks in each of which both clocks had an edge (the
+    bound of theorem bussync_eventually: finish the hand-shake in progress, one full round, the output-side
+    steps), `o` must equal it — and stay equal while the word is held.  Needs no knowledge of the model; the
+    retry time-out must not expire (guaranteed by the generators' drift bound, t >= 4R+7)."""
+    N = 12
+
+    def __init__(self):
+        self.v = None
+        self.blocks = 0
+        self.si = self.so = False
+
+    def observe(self, letter, outs):
+        ti, to, mp, mq, mb, v = letter
+        msg = None
+        if self.v is not None and self.blocks >= self.N and outs[0] != self.v:
+            msg = "i held at %d for %d blocks (both clocks ticking) but o = %d" % (self.v, self.blocks, outs[0])
+        if v != self.v:
+            self.v, self.blocks, self.si, self.so = v, 0, False, False
+        self.si = self.si or bool(ti)
+        self.so = self.so or bool(to)
+        if self.si and self.so:
+            self.blocks += 1
+            self.si = self.so = False
+        return msg
+
+
+class BusSyncMonitor:
+    """Coherence (no torn words) and eventual convergence."""
+    def __init__(self):
+        self.a, self.b = CoherenceMonitor(), ConvergenceMonitor()
+
+    def observe(self, letter, outs):
+        return self.a.observe(letter, outs) or self.b.observe(letter, outs)
 
 
 class BusSync1Inst:
@@ -817,9 +919,11 @@ class AFifoRstInst(AFifoInst):
         AFifoInst.__init__(self, name, w, k, buffered=buffered, cd_w=cd_from, cd_r=cd_to)
         self.lean_open = ("afifo_rst_buffered %d" if buffered else "afifo_rst %d") % k
         # the private domains created by the crossing (names carry a duid): found by what they clock
-        impl_w = self.netlist.mr[id(self.sp_w)][1]
-        impl_r = self.netlist.mr[id(self.sp_r)][1]
-        self.int_w, self.int_r = impl_w.odomain, impl_r.odomain
+        keys = list(self.netlist.sync.keys())
+        self.int_w = (self.netlist.mr[id(self.sp_w)][1].odomain if self.sp_w is not None else
+                      next((k for k in keys if k.startswith("from")), cd_from))
+        self.int_r = (self.netlist.mr[id(self.sp_r)][1].odomain if self.sp_r is not None else
+                      next((k for k in keys if k.startswith("to")), cd_to))
         self.long_resets = long_resets
         self._rst_plan = []
 
@@ -833,7 +937,7 @@ class AFifoRstInst(AFifoInst):
 
     def clocks(self, letter):
         tw, tr, mw, mr = letter[:4]
-        return Tick((self._cds(tw, tr), {id(self.sp_w): mw, id(self.sp_r): mr}))
+        return Tick((self._cds(tw, tr), self._masks(mw, mr)))
 
     def apply(self, letter):
         self.netlist.set(self.module.rst_a, letter[7])
